@@ -168,6 +168,7 @@ class AaAnswer(Aa):
         AvpGenDef("user_name", AVP_USER_NAME),
         AvpGenDef("state_class", AVP_CLASS),
         AvpGenDef("configuration_token", AVP_CONFIGURATION_TOKEN),
+        AvpGenDef("service_type", AVP_SERVICE_TYPE),
         AvpGenDef("acct_interim_interval", AVP_ACCT_INTERIM_INTERVAL),
         AvpGenDef("error_message", AVP_ERROR_MESSAGE, is_mandatory=False),
         AvpGenDef("error_reporting_host", AVP_ERROR_REPORTING_HOST, is_mandatory=False),
@@ -331,7 +332,7 @@ class AaRequest(Aa):
         AvpGenDef("port_limit", AVP_PORT_LIMIT),
         AvpGenDef("user_name", AVP_USER_NAME),
         AvpGenDef("user_password", AVP_USER_PASSWORD),
-        AvpGenDef("service_stype", AVP_SERVICE_TYPE),
+        AvpGenDef("service_type", AVP_SERVICE_TYPE),
         AvpGenDef("state", AVP_STATE),
         AvpGenDef("authorization_lifetime", AVP_AUTHORIZATION_LIFETIME),
         AvpGenDef("auth_grace_period", AVP_AUTH_GRACE_PERIOD),
